@@ -32,7 +32,7 @@ RULE = ("case = (source, options, variation); non-trivial for every variation ot
         "(source, options, variation).")
 ASSUMPTIONS = ["first observation is the reference"]
 SHARD_TIMEOUT = {"quick": 1200, "thorough": 7200}
-BUDGET = {"quick": 8, "thorough": 200}
+BUDGET = {"quick": 8, "thorough": 110}
 
 
 def shards(tier):
